@@ -25,6 +25,12 @@ theorem run_askBool (env : Prog.Env) (q : Ask) :
   simp only [askBool, Prog.run_bind, Prog.run_query]
   cases env.answer q <;> simp
 
+theorem run_hardwareDetailsOK (env : Prog.Env) (der : Bytes) :
+    Prog.run env (hardwareDetailsOK der) = true ↔
+      ∃ exts details, env.answer (.sanView der) = .san exts ∧ Tpm.detailsFromSan exts = some details := by
+  simp only [hardwareDetailsOK, Prog.run_bind, Prog.run_query]
+  cases env.answer (.sanView der) <;> simp [Option.isSome_iff_exists]
+
 theorem run_askBytes (env : Prog.Env) (q : Ask) (b : Bytes) :
     Prog.run env (askBytes q) = some b ↔ env.answer q = .bytes b := by
   simp only [askBytes, Prog.run_bind, Prog.run_query]
@@ -546,7 +552,7 @@ theorem tpm_iff (env : Prog.Env) (o : AttObj) (h : Bytes) (res : Result) :
                               rw [run_hashIsEqual, C12.algHash_spec] at hextra
                               rw [run_hashIsEqual] at hnameOK
                               rw [run_askBool, C12.algX509_spec] at hsig
-                              rw [run_askBool] at hhw
+                              rw [run_hardwareDetailsOK] at hhw
                               exact ⟨der, c, rest, ciRaw, ci, paRaw, pa, d, acd, k, pk, paEnc, nameAlg, nameVal,
                                 hashId, ciEnc, (unmarshal_ok_iff _ _ _).1 hc, hciRaw, hci, hpaRaw, hpa,
                                 (attested_iff _ _ _).1 hA, (credKey_iff _ _).1 hK, hpk, hkeq.1, hkeq.2, hmagic, htype,
@@ -570,7 +576,7 @@ theorem tpm_iff (env : Prog.Env) (o : AttObj) (h : Bytes) (res : Result) :
     have hsig' : Prog.run env (askBool (.x509CheckSig der (Cose.algX509 (getAlgorithm o.stmt)) ciEnc
         (getSignature o.stmt))) = true := by
       rw [run_askBool, C12.algX509_spec]; exact hsig
-    have hhw' := (run_askBool _ _).2 hhw
+    have hhw' := (run_hardwareDetailsOK _ _).2 hhw
     subst hnalg
     simp [verifyTPM, hx', hciRaw, hci, hpaRaw, hpa, hA', hK', hpk, hkeq, hgen, htag, hmagic, htype, hextra', hpaEnc,
       hcert, hname, hhid, hnameOK', hciEnc, hsig', hver, hhw', hoid, heku, hca]
@@ -678,6 +684,14 @@ theorem u2f_requirements (env : Prog.Env) (o : AttObj) (h : Bytes) (res : Result
 
 theorem tpm_requirements (env : Prog.Env) (o : AttObj) (h : Bytes) (res : Result)
     (hr : Prog.run env (verifyTPM o h) = some res) : TpmOK env o h res := (tpm_iff env o h res).1 hr
+
+/-- T8–T10: an accepted TPM statement's AIK certificate carries, in the first directory name of its SAN, a manufacturer attribute naming a
+    registered vendor together with non-empty model and version attributes -/
+theorem tpm_hardware_details (env o h res) (hr : Prog.run env (verifyTPM o h) = some res) :
+    ∃ der rest exts details, res.x5c = der :: rest ∧ env.answer (.sanView der) = .san exts ∧ Tpm.detailsFromSan exts = some details := by
+  obtain ⟨der, c, rest, _, _, _, _, _, _, _, _, _, _, _, _, _, _, _, _, _, _, _, _, _, _, _, _, _, _, _, _, _, _, _, _, _, _, _,
+    ⟨exts, details, hsan, hdet⟩, _, _, rfl⟩ := (tpm_requirements env o h res hr).body
+  exact ⟨der, rest.map (·.1), exts, details, rfl, hsan, hdet⟩
 
 theorem androidKey_requirements (env : Prog.Env) (o : AttObj) (h : Bytes) (res : Result)
     (hr : Prog.run env (verifyAndroidKey o h) = some res) : AndroidKeyOK env o h res :=
